@@ -286,7 +286,7 @@ func permutations(n int) [][]int {
 }
 
 func TestPropRPCStorageProof(t *testing.T) {
-	stats.Check(t, stats.Budget{Quick: 100, Thorough: 2500},
+	stats.Check(t, stats.Budget{Quick: 250, Thorough: 2500},
 		"generated chains (1-6 blocks, internal/gen) stored on a legacy and a trie2 node; after drawn blocks starknet_getStorageProof is sent as JSON text through jsonrpc.Server+rpc.Handler (v0_9 and v0_10; named or positional params; block_id latest / head number / head hash / older block) with class_hashes, contract_addresses and contracts_storage_keys drawn from the universe plus absent ones; every returned proof is walked by a verifier written from the RPC spec down to the reference model's value or to an established absence; global_roots must combine to the new_root of starknet_getBlockWithTxHashes; i-th storage proof <-> i-th requested contract; non-trivial = request with >= 2 contracts with storage keys of which >= 2 have different non-empty storage",
 		func(rt *rapid.T, c *stats.Case) {
 			u := gen.NewUniverse(rt)
